@@ -33,7 +33,7 @@ impl SwiftField for Field57A {
     where
         Self: Sized,
     {
-        let lines: Vec<&str> = input.lines().collect();
+        let lines = super::field_utils::content_lines(input, "Field 57A")?;
 
         if lines.is_empty() {
             return Err(ParseError::InvalidFormat {
@@ -103,7 +103,7 @@ impl SwiftField for Field57B {
             });
         }
 
-        let lines: Vec<&str> = input.lines().collect();
+        let lines = super::field_utils::content_lines(input, "Field 57B")?;
         let mut party_identifier = None;
         let mut location = None;
         let mut current_idx = 0;
@@ -207,7 +207,7 @@ impl SwiftField for Field57D {
     where
         Self: Sized,
     {
-        let lines: Vec<&str> = input.lines().collect();
+        let lines = super::field_utils::content_lines(input, "Field 57D")?;
 
         if lines.is_empty() {
             return Err(ParseError::InvalidFormat {
